@@ -63,6 +63,10 @@ func propC03(c *Ctx) {
 						has = true
 					}
 				}
+				// also "if err == nil { err = h.execute() }; if err != nil { unwind }"
+				if !has {
+					has = ErrNilImplies(fn, s.Instr.Block(), "(*tcp.handshake).execute")
+				}
 				c.Check(has && strings.HasPrefix(s.Args[0], "(*tcp.listenContext).createConnectedEndpoint("), h2, FuncName(fn)+"/success-needs-execute", c.pos(s.Instr), "success is returned only after execute() == nil, with the endpoint created for this SYN", "an endpoint is returned as successfully connected without handshake.execute() having succeeded")
 			} else {
 				c.Check(s.Args[0] == "nil", h2, FuncName(fn)+"/error-returns-no-endpoint:"+s.Args[1][:minInt(40, len(s.Args[1]))], c.pos(s.Instr), "error paths return no endpoint", "an error path returns an endpoint")
